@@ -187,7 +187,12 @@ func wDecodedIdentity(c *Ctx, fns [][3]string, floor int) {
 					root := ssa.Value(fa.X)
 					for {
 						if f2, ok := root.(*ssa.FieldAddr); ok {
-							owner = owner + "." // nested
+							// nested: the enclosing field's name distinguishes c.A.QuadPart from c.B.QuadPart
+							if st2, ok := derefType(f2.X.Type()).Underlying().(*types.Struct); ok {
+								owner = st2.Field(f2.Field).Name() + "." + owner
+							} else {
+								owner = owner + "."
+							}
 							root = f2.X
 							continue
 						}
@@ -243,7 +248,17 @@ func wDecodedIdentity(c *Ctx, fns [][3]string, floor int) {
 			for _, s := range ss {
 				switch {
 				case !s.wire:
-					bad = append(bad, "a second store at "+p.Rel(s.in.Pos())+" overwrites the decoded value with something not read from the wire")
+					// only an OVERWRITE matters: the other store must be able to run after a wire store
+					// (stores in mutually exclusive alternatives — another buffer format — are fine)
+					follows := false
+					for _, w := range ss {
+						if w.wire && w.in.Parent() == s.in.Parent() && instrReaches(w.in, s.in) {
+							follows = true
+						}
+					}
+					if follows {
+						bad = append(bad, "a second store at "+p.Rel(s.in.Pos())+" overwrites the decoded value with something not read from the wire")
+					}
 				case s.mixes:
 					bad = append(bad, "the value stored at "+p.Rel(s.in.Pos())+" is the wire read on some paths and a constant on others")
 				}
